@@ -364,7 +364,7 @@ struct Client {
 }
 
 async fn associate(w: &World) -> Result<(TcpStream, SocketAddr), String> {
-    let mut s = tokio::time::timeout(step(), TcpStream::connect(("127.0.0.1", w.socks_port)))
+    let mut s = tokio::time::timeout(step(), TcpStream::connect((w.socks_host, w.socks_port)))
         .await
         .map_err(|_| "HANG connecting to the SOCKS listener".to_string())?
         .map_err(|e| format!("connect SOCKS listener: {e}"))?;
@@ -396,6 +396,8 @@ async fn associate(w: &World) -> Result<(TcpStream, SocketAddr), String> {
         };
         let mut p = [0u8; 2];
         s.read_exact(&mut p).await.map_err(|e| e.to_string())?;
+        // BND.ADDR 0.0.0.0 / :: (a listener on every address): "the address I reached you at", as clients read it
+        let ip = if ip.is_unspecified() { w.socks_host } else { ip };
         Ok(SocketAddr::new(ip, u16::from_be_bytes(p)))
     };
     let relay = tokio::time::timeout(step(), io).await.map_err(|_| "HANG in the UDP ASSOCIATE handshake".to_string())??;
@@ -639,7 +641,7 @@ async fn round_active(
                 d.extend_from_slice(&payload);
                 (clients[*c].relay.unwrap(), d)
             } else {
-                (SocketAddr::from(([127, 0, 0, 1], w.udp_remote_ports[*t])), payload.clone())
+                (w.udp_remote_addr(*t), payload.clone())
             };
             if let Err(e) = clients[*c].sock.send_to(&wire, to).await {
                 out.infra = Some(format!("send_to: {e}"));
@@ -721,7 +723,7 @@ async fn one_way(w: &World, sc: &UdpScn, ow: &OneWay, clients: &[Client], seq: &
                     d.extend_from_slice(&payload);
                     (clients[c].relay.unwrap(), d)
                 } else {
-                    (SocketAddr::from(([127, 0, 0, 1], w.udp_remote_ports[*t])), payload.clone())
+                    (w.udp_remote_addr(*t), payload.clone())
                 };
                 if let Err(e) = clients[c].sock.send_to(&wire, to).await {
                     out.infra = Some(format!("send_to: {e}"));
@@ -920,10 +922,11 @@ fn check_maps(w: &World, sc: &UdpScn, clients: &[Client], out: &mut UdpOutcome) 
                 let ours: Vec<SocketAddr> = if sc.socks {
                     vec![c.relay.unwrap()]
                 } else {
-                    sc.targets.iter().map(|t| SocketAddr::from(([127, 0, 0, 1], w.udp_remote_ports[*t]))).collect()
+                    sc.targets.iter().map(|t| w.udp_remote_addr(*t)).collect()
                 };
                 for our in ours {
-                    let n = m.ids.iter().filter(|(_, p, o, s5)| *p == c.addr && *o == our && *s5 == sc.socks).count();
+                    // (a listener on 0.0.0.0 is in the maps under that address, whatever address the local client reached it at)
+                    let n = m.ids.iter().filter(|(_, p, o, s5)| *p == c.addr && (*o == our || (o.ip().is_unspecified() && o.port() == our.port())) && *s5 == sc.socks).count();
                     if n != 1 {
                         out.bad.push(("client-maps-missing-entry".into(), format!("client {ci} ({}) via {our}: {n} entries in the client id map right after its exchange", c.addr)));
                     }
@@ -954,7 +957,7 @@ async fn run_shared(w: &World, sc: &UdpScn, order: SharedOrder, nonce: u32, rng:
     let mut ctl = Some(ctl);
     let mut clients: Vec<Client> = vec![];
     for _ in 0..sc.clients.clamp(1, 4) {
-        match UdpSocket::bind("127.0.0.1:0").await {
+        match UdpSocket::bind(w.udp_client_bind(sc.socks, &sc.targets)).await {
             Ok(sock) => {
                 let addr = sock.local_addr().unwrap();
                 clients.push(Client { sock, addr, relay: Some(relay), ctl: ctl.take() });
@@ -1042,7 +1045,7 @@ async fn run_shared(w: &World, sc: &UdpScn, order: SharedOrder, nonce: u32, rng:
     }
     if order == SharedOrder::Renew {
         // a new local socket first (so that it cannot get the old port), then the old one is closed
-        let sock = match UdpSocket::bind("127.0.0.1:0").await {
+        let sock = match UdpSocket::bind(w.udp_client_bind(sc.socks, &sc.targets)).await {
             Ok(s) => s,
             Err(e) => {
                 out.infra = Some(format!("bind: {e}"));
@@ -1093,7 +1096,7 @@ pub async fn run_udp(w: Arc<World>, sc: UdpScn) -> UdpOutcome {
     }
     let mut clients = vec![];
     for _ in 0..sc.clients {
-        let sock = match UdpSocket::bind("127.0.0.1:0").await {
+        let sock = match UdpSocket::bind(w.udp_client_bind(sc.socks, &sc.targets)).await {
             Ok(s) => s,
             Err(e) => {
                 out.infra = Some(format!("bind: {e}"));
@@ -1122,7 +1125,7 @@ pub async fn run_udp(w: Arc<World>, sc: UdpScn) -> UdpOutcome {
     let mut seq = 0u32;
     // the other local socket of the junk scenarios: it never sends anything valid
     let stranger = match &sc.junk {
-        Some(j) if j.other => match UdpSocket::bind("127.0.0.1:0").await {
+        Some(j) if j.other => match UdpSocket::bind(w.udp_client_bind(sc.socks, &sc.targets)).await {
             Ok(s) => Some(s),
             Err(e) => {
                 out.infra = Some(format!("bind: {e}"));
